@@ -86,6 +86,7 @@ type machine struct {
 	scratch  *model
 	domDecided int
 	openFiles map[*value]bool // file-handle model: handles returned by os.Open and not yet closed
+	zipContents map[string]value // zip content model: member name -> content registered by the harness
 
 	// per-machine
 	globals   map[*ssa.Global]*value
